@@ -1,4 +1,5 @@
 """C19 - Encoding/format conversion tools preserve every record and are reversible."""
+import collections
 import contextlib
 import copy
 import io
@@ -24,7 +25,7 @@ RULE = ('Writer-produced IPM files (messages on the packaged configuration: type
         'mci_ipm_encode (function and cli_run on real files), mideu convert (cli_entry on real files; cp500<->latin1, same format), '
         'mci_ipm_param_encode (function and cli_run), paramconv (cli_entry). Oracle: the output read under B equals the input read '
         'under A record by record (count, order, DE55 bytes), parameter records keep their text, and converting back with the '
-        'original format reproduces the original file byte for byte. Non-trivial = A != B with a non-ASCII character or binary DE55 '
+        'original format reproduces the original file byte for byte. Files of >= 1100 records (generated records repeated) go through the same comparison. Non-trivial = A != B with a non-ASCII character or binary DE55 '
         'present, or formats differ; distinct by digest.')
 ASSUMPTIONS = ['the three encodings cover the same 256-character repertoire, so every character is convertible',
                'input IPM files are written by the library\'s IpmWriter; parameter files by VbsWriter',
@@ -78,8 +79,16 @@ def run_ipm_tool(tool, data, a, b, fa, fb, scratch):
         return f.read()
 
 
+WRITTEN = collections.Counter()
+
+
 def check_ipm(tool, msgs, a, b, fa, fb, scratch):
-    original = write_ipm(msgs, a, fa)
+    try:
+        original = write_ipm(msgs, a, fa)
+    except Exception:  # noqa - the statement starts from an existing file; a writer that refuses these messages is C01/C06's business
+        WRITTEN['raised'] += 1
+        return None
+    WRITTEN['ok'] += 1
     desc = f'{tool} {a}/{fa} -> {b}/{fb}, {len(msgs)} records'
     try:
         before = read_ipm(original, a, fa)
@@ -199,11 +208,19 @@ def noncanonical_carriers(draw, codec, msg):
     return out
 
 
-def hyp_ipm(ctx, n):
+def hyp_ipm(ctx, n, many=False):
     scratch = tempfile.mkdtemp(prefix='cardutil-verif-c19-')
     try:
         def body(v):
             a, b, fa, fb, msgs, raw = v
+            if many:
+                # a file of >= 1100 records (the generated ones repeated); `repeat` keeps the replay small
+                repeat = -(-1100 // len(msgs))
+                ctx.case(key=harness.digest((a, b, fa, fb, msgs, repeat)), nontrivial=True, labels=['ipm-many-records', f'{fa}->{fb}'])
+                res = check_ipm('mci_ipm_encode', msgs * repeat, a, b, fa, fb, scratch)
+                if res:
+                    ctx.fail(res[0], {'kind': 'ipm', 'tool': 'mci_ipm_encode', 'a': a, 'b': b, 'fa': fa, 'fb': fb, 'msgs': msgs, 'repeat': repeat}, res[1])
+                return
             nonascii = any(isinstance(x, str) and any(ord(c) > 127 for c in x) for m in msgs for x in m.values())
             binary = any('DE55' in m for m in msgs)
             ctx.case(key=harness.digest((a, b, fa, fb, msgs)), nontrivial=(a != b and (nonascii or binary)) or fa != fb,
@@ -223,14 +240,19 @@ def hyp_ipm(ctx, n):
                 res = check_ipm('mideu-convert', msgs, a, b, fa, fa, scratch)
                 if res:
                     ctx.fail(res[0], {'kind': 'ipm', 'tool': 'mideu-convert', 'a': a, 'b': b, 'fa': fa, 'fb': fa, 'msgs': msgs}, res[1])
-        harness.drive(ctx, ipm_cases(), body, n, salt='ipm')
+        harness.drive(ctx, ipm_cases(), body, n, salt='ipm-many' if many else 'ipm')
     finally:
         shutil.rmtree(scratch, ignore_errors=True)
-    ctx.floor('mideu-convert', 0.05, 'ipm')
-    ctx.floor('class:raw-carriers', 0.15, 'ipm')
+    ctx.labels['ipm-source-file-written'] += WRITTEN['ok']
+    ctx.labels['ipm-source-file-writer-raised'] += WRITTEN['raised']
+    WRITTEN.clear()
+    if not many:
+        ctx.floor('ipm-source-file-written', 0.5, 'ipm')
+        ctx.floor('mideu-convert', 0.05, 'ipm')
+        ctx.floor('class:raw-carriers', 0.15, 'ipm')
 
 
-def hyp_param(ctx, n):
+def hyp_param(ctx, n, many=False):
     scratch = tempfile.mkdtemp(prefix='cardutil-verif-c19-')
     try:
         strat = st.tuples(st.sampled_from(PAIRS), st.sampled_from(FORMATS), st.sampled_from(FORMATS),
@@ -243,6 +265,14 @@ def hyp_param(ctx, n):
 
         def body(v):
             (a, b), fa, fb, records = v
+            if many:
+                records = [r[:200] for r in records]
+                repeat = -(-1100 // len(records))
+                ctx.case(key=harness.digest(('p', a, b, fa, fb, records, repeat)), nontrivial=True, labels=['param-many-records', f'{fa}->{fb}'])
+                res = check_param('mci_ipm_param_encode', records * repeat, a, b, fa, fb, scratch)
+                if res:
+                    ctx.fail(res[0], {'kind': 'param', 'tool': 'mci_ipm_param_encode', 'a': a, 'b': b, 'fa': fa, 'fb': fb, 'records': records, 'repeat': repeat}, res[1])
+                return
             nonascii = any(any(c > 127 for c in r) for r in records)
             ctx.case(key=harness.digest(('p', a, b, fa, fb, records)), nontrivial=(a != b and nonascii) or fa != fb,
                      labels=['param', f'{a}->{b}', f'{fa}->{fb}'])
@@ -257,10 +287,11 @@ def hyp_param(ctx, n):
                 res = check_param('paramconv', records, a, b, fa, fa, scratch)
                 if res:
                     ctx.fail(res[0], {'kind': 'param', 'tool': 'paramconv', 'a': a, 'b': b, 'fa': fa, 'fb': fa, 'records': records}, res[1])
-        harness.drive(ctx, strat, body, n, salt='param')
+        harness.drive(ctx, strat, body, n, salt='param-many' if many else 'param')
     finally:
         shutil.rmtree(scratch, ignore_errors=True)
-    ctx.floor('paramconv', 0.05, 'param')
+    if not many:
+        ctx.floor('paramconv', 0.05, 'param')
 
 
 def tasks(tier, seed):
@@ -270,6 +301,8 @@ def tasks(tier, seed):
         t.append(('hyp_ipm', dict(n=60 if not full else 400)))
     for i in range(4 if not full else 8):
         t.append(('hyp_param', dict(n=120 if not full else 600)))
+    t.append(('hyp_ipm', dict(n=3 if not full else 20, many=True)))
+    t.append(('hyp_param', dict(n=3 if not full else 20, many=True)))
     return t
 
 
@@ -277,7 +310,7 @@ def replay(case):
     scratch = tempfile.mkdtemp(prefix='cardutil-verif-c19-')
     try:
         if case['kind'] == 'ipm':
-            return check_ipm(case['tool'], list(case['msgs']), case['a'], case['b'], case['fa'], case['fb'], scratch)
-        return check_param(case['tool'], list(case['records']), case['a'], case['b'], case['fa'], case['fb'], scratch)
+            return check_ipm(case['tool'], list(case['msgs']) * case.get('repeat', 1), case['a'], case['b'], case['fa'], case['fb'], scratch)
+        return check_param(case['tool'], list(case['records']) * case.get('repeat', 1), case['a'], case['b'], case['fa'], case['fb'], scratch)
     finally:
         shutil.rmtree(scratch, ignore_errors=True)
